@@ -81,7 +81,7 @@ class ReaderRunner:
         return None
 
     def extra_evidence(self):
-        return {}
+        return dict(run.HIST_STATS)
 
 
 def _sig(msg):
